@@ -399,7 +399,9 @@ class Circuit:
             n = impl_out_lines[0].driver
             while n.kind == '__fork__' and n not in ios:
                 n = n.ins[0].driver
-            designated_cell = n
+            # a port of the implementation cannot stand for the instance: its line into the implementation is replaced by the
+            # instance's own line (feed-through cells); such an implementation has no designated cell
+            designated_cell = None if n in ios else n
         # a flip-flop or latch of the implementation keeps the instance's name and position (s_nodes is unchanged)
         seq_nodes = [n for n in impl.nodes if 'dff' in n.kind.lower() or 'latch' in n.kind.lower()]
         if len(seq_nodes) > 0: designated_cell = seq_nodes[0]
